@@ -1,7 +1,32 @@
-import KM.Driver.Core
-/-! Driver for C01 (stub until the property's model is built). -/
+import KM.Driver.AuthOps
+/-! Driver for C01: `cg <allowed csv|-> <sealed> <target> <certtype> <key ok|bad> <request shape>`
+↦ outcome of the `certGenHandler` decision model. -/
 namespace KM.Driver.C01
+open KM.Util KM.Auth KM.CertGen KM.Driver.AuthOps
 
-def handler (_mode : String) : Option Handler := none
+def outcomeStr : Outcome → String
+  | .issued u => s!"issued {hex u}"
+  | .refused s => s!"refused {s}"
+  | .noResponse => "noresponse"
+
+def parseAllowed (s : String) : List (List Char) :=
+  if s == "-" then [] else (s.splitOn ",").map String.toList
+
+def knownType (t : String) : Bool := t == "ssh" || t == "x509" || t == "x509-kubernetes"
+
+def run (v : Variant) : List String → String
+  | "cg" :: allowed :: sealed :: target :: ctype :: key :: rest =>
+    match parseBool sealed, parseReq rest with
+    | some sl, some p =>
+      let post : Post := if !knownType ctype then .refused 400 else if key == "ok" then .ok else .refused 400
+      outcomeStr (decideWith v p.cfg (parseAllowed allowed)
+        { req := p.req, sealed := sl, target := target, post := post })
+    | _, _ => "bad-op"
+  | _ => "bad-op"
+
+def handler (mode : String) : Option Handler :=
+  if mode == "model" then some (.pure (run fixed))
+  else if mode == "model-asfound" then some (.pure (run asFound))
+  else none
 
 end KM.Driver.C01
